@@ -13,8 +13,8 @@
     * `reg_stack_arg_machine`: `move_reg_to_stack_arg` stores the register extended as the parameter type requires, every integer
       type pair, every register value;
     * `vec_to_ptr_machine`: the two instructions of `move_vec_to_ptr` leave the pointer and the vector in the temporary;
-    * `reg_reg_arg_machine`: 8/16-bit registers for wider integer register parameters are extended (fix C06-17);
-    * `reg_arg_not_extended_witness`: the open finding C06-K9 (an int32 register for an int64 register parameter is NOT sign-extended).
+    * `reg_reg_arg_machine`: 8/16-bit registers for wider integer register parameters, and int32 for int64, are extended (fixes C06-17, C06-20);
+    * `reg_arg_int32_repaired`: the former finding C06-K9 (int32 register for an int64 register parameter) after fix C06-20.
   Whole argument lists: Props/C06InvokeList.lean (`pack_machine`, `invoke_int_args_machine`) composes these per-path theorems for any
   number of integer arguments by a frame argument (every block writes only its own registers and its own slot).  Not in the list
   theorem yet: vector / by-reference arguments (their pieces are `vec_to_ptr_machine` + `temps_ok`) and the register allocator (C05);
@@ -68,7 +68,9 @@ theorem moveRegToRegArg_keeps (s : LSt) (arg : FuncValue) (vid st : Nat) (s' : L
   · cases h; exact ⟨rfl, rfl, rfl⟩
   · split at h
     · cases h; exact ⟨rfl, rfl, rfl⟩
-    · exact absurd h (by simp)
+    · split at h
+      · cases h; exact ⟨rfl, rfl, rfl⟩
+      · exact absurd h (by simp)
 
 theorem moveImmToStackArg_keeps (s : LSt) (arg : FuncValue) (imm : BitVec 64) (s' : LSt)
     (h : moveImmToStackArg s arg imm = .ok s') :
@@ -591,11 +593,16 @@ theorem run_extR (m : M) (n : Mnm) (hn : n = .movsx ∨ n = .movzx) (rt : Nat) (
   rcases hn with rfl | rfl <;> rcases hrt with rfl | rfl <;> rcases hrs with rfl | rfl <;>
     simp [run, step, readGp, writeGp, hg, rtBits, getGp_setGp, extOf]
 
+theorem run_extR32 (m : M) (id vid : Nat) (x : BitVec 64) (hg : m.getGp vid = some (.num x 64)) :
+    ∃ m', run m [⟨.movsxd, false, [.reg 6 id, .reg 5 vid], false⟩] = some m' ∧
+      m'.getGp id = some (.num (sext32 (x &&& 0xFFFFFFFF#64)) 64) := by
+  simp [run, step, readGp, writeGp, hg, rtBits, getGp_setGp]
+
 /-- **8/16-bit register for a wider integer register parameter, every type pair, every register content**: the instruction
     `move_reg_to_reg_arg` emits leaves, in the new register the invoke passes instead, the value extended as the parameter type
     requires (all 64 bits defined) -/
-theorem reg_reg_arg_machine (s : LSt) (arg : FuncValue) (hdt : arg.typeId ∈ intTys8) (st : Nat) (hst : st ∈ [34, 35, 36, 37])
-    (hw : tySize arg.typeId > tySize st) (vid : Nat) (s' : LSt) (rt id : Nat) (h : moveRegToRegArg s arg vid st = .ok (s', rt, id))
+theorem reg_reg_arg_machine (s : LSt) (arg : FuncValue) (hdt : arg.typeId ∈ intTys8) (st : Nat) (hst : st ∈ [34, 35, 36, 37, 38])
+    (hw : tySize arg.typeId > tySize st) (h38 : st = 38 → arg.typeId = 40) (vid : Nat) (s' : LSt) (rt id : Nat) (h : moveRegToRegArg s arg vid st = .ok (s', rt, id))
     (m : M) (x : BitVec 64) (hg : m.getGp vid = some (.num x 64)) :
     ∃ i m', s'.out = s.out ++ [i] ∧ run m [i] = some m' ∧
       readGp m' id (viewRt arg.typeId) = some (lowBytes (tySize arg.typeId) (widen arg.typeId st x)) := by
@@ -603,10 +610,13 @@ theorem reg_reg_arg_machine (s : LSt) (arg : FuncValue) (hdt : arg.typeId ∈ in
   unfold moveRegToRegArg at h
   simp only [hd] at h
   simp only [intTys8, List.mem_cons, List.mem_nil_iff, or_false] at hdt hst
-  rcases hdt with rfl | rfl | rfl | rfl | rfl | rfl | rfl | rfl <;> rcases hst with rfl | rfl | rfl | rfl <;>
-    simp [tySize] at hw <;> simp [isGp8, isGp16, tySize] at h <;> obtain ⟨rfl, rfl, rfl⟩ := h
+  rcases hdt with rfl | rfl | rfl | rfl | rfl | rfl | rfl | rfl <;> rcases hst with rfl | rfl | rfl | rfl | rfl <;>
+    simp [tySize] at hw <;> simp at h38 <;> simp [isGp8, isGp16, tySize] at h <;> obtain ⟨rfl, rfl, rfl⟩ := h
   all_goals
     first
+    | (obtain ⟨m', h1, h2⟩ := run_extR32 m s.nextV vid x hg
+       refine ⟨_, m', rfl, h1, ?_⟩
+       simp [readGp, h2, viewRt, tySize, rtBits, lowBytes, widen, isInt, isBetween, sext32] <;> bv_decide)
     | (obtain ⟨m', h1, h2⟩ := run_extR m .movsx (Or.inl rfl) 5 (Or.inl rfl) 2 (Or.inl rfl) s.nextV vid x hg
        refine ⟨_, m', rfl, h1, ?_⟩
        simp [readGp, h2, viewRt, tySize, rtBits, lowBytes, widen, isInt, isBetween, extOf, zext32, sext8, sext16] <;> bv_decide)
@@ -645,20 +655,16 @@ theorem vec_to_ptr_machine (m : M) (nrt pid : Nat) (off : Nat) (vrt vid k : Nat)
   simp [run, step, addrOf, spId, hp, getGp_setGp, hvg, hgv, cell_store_same]
   simp [M.store, M.getGp, M.setGp]
 
-/-! ## open finding C06-K9 (known_findings.json), what is left of it after fix C06-17: an int32 register for an int64 register parameter
+/-! ## former finding C06-K9, repaired by fixes C06-17 and C06-20 -/
 
-  `on_before_invoke` extends 8/16-bit registers passed for wider integer register parameters (`reg_reg_arg_machine`) but still emits
-  nothing for a 32-bit register; the allocator places the virtual register in the argument register, zero-extended by the 32-bit
-  write that produced it – also for int32 -> int64, where the parameter type requires sign extension and where the same argument in a
-  stack position gets `movsxd` (`reg_stack_arg_machine`).  Witness on the model: an `int32`
-  register holding 0x88664422 for an `int64` parameter in rdx: no instruction, the callee reads 0x0000000088664422, the parameter
-  type requires 0xFFFFFFFF88664422.  (Host execution: `ivx 33 0 8 40=r36 40=r37 40=r38 … -> … gcc996633`.) -/
-theorem reg_arg_not_extended_witness :
+/-- an `int32` register holding 0x88664422 for an `int64` register parameter: `movsxd` into a new register which the invoke passes
+    (the unrepaired code emitted nothing: the callee read 0x0000000088664422) -/
+theorem reg_arg_int32_repaired :
     let arg : FuncValue := .reg 40 6 2
     let s0 : LSt := { is64 := true, avx := false, argStack := 0, csAlign := 16 }
     (match lowerValue s0 arg (.gp 1 38) with
-     | .ok (s, op) => s.out == [] && op == .gp 1 38
+     | .ok (s, op) => s.out == [⟨.movsxd, false, [.reg 6 1000, .reg 5 1], false⟩] && op == .gp 1000 41
      | .error _ => false) = true ∧
-    widen 40 38 0x88664422#64 = 0xFFFFFFFF88664422#64 ∧ zext32 0x88664422#64 = 0x88664422#64 := by decide
+    widen 40 38 0x88664422#64 = 0xFFFFFFFF88664422#64 := by decide
 
 end AsmjitVerif.C06Invoke
